@@ -218,6 +218,46 @@ theorem C14_epochs_converges (w0 w : World N K) (hs : SumOK w0.cfg) (hcs : 0 < w
   exact ⟨p, q, fun k hk => ⟨hk, fun n hn hno => p.rnone n k hn hno⟩,
     fun k hk => ⟨hk, fun n hn hno => p.fnone n k hn hno⟩, wreach_sync hr r1⟩
 
+/-- Which changes of the list are `Safe`: in every world of every history it suffices that running
+nodes keep running, that a node which comes back holds out-of-date copies only of keys the new
+routing assigns to it (it received them under the same list before the change was rolled back:
+rendezvous hashing gives the same owner for the same list), that the owner does not change where a
+running owner holds an out-of-date copy, and that at most one started non-owner holds a shard. -/
+theorem C14_epochs_safe_change (w0 w : World N K) (hs : SumOK w0.cfg) (h0 : WInit w0) (hr : WReach w0 w)
+    (o f : K → N) (u : N → Bool)
+    (hstay : ∀ n, w.cfg.up n = true → u n = true)
+    (hbackR : ∀ n k v, u n = true → w.cfg.up n = false → w.st.recs n k = some v → w.ro k ≠ some v → n = o k)
+    (hownR : ∀ k v, u (w.cfg.owner k) = true → w.st.recs (w.cfg.owner k) k = some v → w.ro k ≠ some v →
+      o k = w.cfg.owner k)
+    (hbackF : ∀ n k c, u n = true → w.cfg.up n = false → w.st.files n k = some c → w.fo k ≠ some c → n = f k)
+    (hownF : ∀ k c, u (w.cfg.fowner k) = true → w.st.files (w.cfg.fowner k) k = some c → w.fo k ≠ some c →
+      f k = w.cfg.fowner k)
+    (hfc : ∀ n n' k, u n = true → u n' = true → n ≠ f k → n' ≠ f k →
+      (w.st.files n k).isSome → (w.st.files n' k).isSome → n = n') :
+    Safe w o f u ∧ WReach w0 (wstep (.reconf o f u) w) :=
+  have hsafe := safe_of_winv (winv_reach hs h0 hr).1 o f u hstay hbackR hownR hbackF hownF hfc
+  ⟨hsafe, .reconf o f u hr hsafe⟩
+
+/-- non-vacuity of `C14_epochs_safe_change`: applying the grown list again in the history of
+`Witness.lean` — node 2 comes back with the older copy of record 0, which the grown list assigns to it -/
+example : Safe (eW 7) (fun _ => 2) (fun _ => 0) (fun _ => true) :=
+  (C14_epochs_safe_change eW0 (eW 7) eSumOK eInit eReach7
+    (fun _ => 2) (fun _ => 0) (fun _ => true) (fun _ _ => rfl)
+    (fun n k v _ hd _ _ => by
+      have : ∀ n : eN, (eW 7).cfg.up n = false → n = 2 := by decide
+      exact this n hd)
+    (fun k v _ hv hne => by
+      have : ∀ k : eK, (eW 7).st.recs ((eW 7).cfg.owner k) k = (eW 7).ro k := by decide
+      rw [this k] at hv
+      exact absurd hv hne)
+    (fun n k c _ hd hc _ => by
+      have h2 : ∀ n : eN, (eW 7).cfg.up n = false → n = 2 := by decide
+      have hn : ∀ k : eK, (eW 7).st.files 2 k = none := by decide
+      rw [h2 n hd, hn k] at hc
+      cases hc)
+    (fun _ _ _ _ _ => rfl)
+    (by decide)).1
+
 /-- non-vacuity: the history of `Witness.lean` (grow, sender killed between send and delete, rolled back
 with the new node switched off, the record changes, grow again) is a history in the sense of
 `WReach`, the older copy `[1]` is still on node 2 when the list grows again … -/
